@@ -335,7 +335,7 @@ func (e *Engine) checkFrame(fr *Frame, con *Contract, o Outcome, old *State, key
 	}
 	// ghost frame
 	for k, nv := range o.st.ghost {
-		if strings.HasPrefix(k, "alloc.") || strings.HasPrefix(k, "rangecount") {
+		if strings.HasPrefix(k, "alloc.") || strings.HasPrefix(k, "rangecount") || e.auxGhost[k] {
 			continue
 		}
 		ov, ok := old.ghost[k]
